@@ -22,7 +22,7 @@ RULE = ("every element key and every modifier x element, with Hypothesis-generat
         "distinct by (construct, arguments)")
 ASSUMPTIONS = [
     "an element is entitled to its table arity; a modifier to the consumption documented in its template "
-    "(v & ~: operand arity; ₌ ₍: max of both; ƒ ɖ: 1; ß: 1 + operand arity; ⁽ ‡ ≬: 0)",
+    "(v & ~: operand arity; ₌ ₍: the second operand's arity is consumed, arguments only the first operand needs may be read but must stay in place; ƒ ɖ: 1; ß: 1 + operand arity; ⁽ ‡ ≬: 0)",
     "only 'entries below the top k are untouched' is asserted, not the number of results",
 ]
 
@@ -72,8 +72,10 @@ def _code(text):
     return c
 
 
-def check(text, specs):
-    """-> ('discard', why) | None | (sig, msg)"""
+def check(text, specs, protected_extra=0):
+    """protected_extra: how many of the generated arguments (the lowest ones) the construct may only
+    read, not remove or reorder (₌ / ₍ : the first operand works on a copy of the stack).
+    -> ('discard', why) | None | (sig, msg)"""
     harness.reset_globals()
     ctx = harness.fresh_ctx()
     s0 = list(SENT_VALUES[0])
@@ -100,6 +102,12 @@ def check(text, specs):
                 what = f"entry {i} below the arguments was replaced by {str(stack[i])[:60]!r}"
                 break
     if what is None:
+        for i in range(protected_extra):
+            if len(stack) <= 3 + i or stack[3 + i] is not args[i]:
+                what = (f"argument {i}, which the construct only reads (its first operand works on a copy of the stack), "
+                        f"was removed or moved: the entry above the sentinels is now {str(stack[3 + i])[:60] if len(stack) > 3 + i else 'missing'!r}")
+                break
+    if what is None:
         try:
             vals = (norm(s0), norm(s1), norm(s2))
         except Exception as e:  # noqa: BLE001
@@ -112,15 +120,15 @@ def check(text, specs):
     return None
 
 
-def _do(rec, text, key_for_overloads, specs, cls):
-    r = check(text, specs)
+def _do(rec, text, key_for_overloads, specs, cls, protected_extra=0):
+    r = check(text, specs, protected_extra)
     if r and r[0] == "discard":
         rec.discard(r[1])
         return
     nt = elemargs.matches_overload(key_for_overloads, specs[-arity_of(key_for_overloads):] if arity_of(key_for_overloads) else [])
     rec.case(key=(text, repr(specs)), nontrivial=nt or arity_of(key_for_overloads) == 0, cls=cls)
     if r:
-        rec.fail(r[0], {"text": text, "specs": elemargs.tolist(specs)}, r[1])
+        rec.fail(r[0], {"text": text, "specs": elemargs.tolist(specs), "protected_extra": protected_extra}, r[1])
 
 
 def _shard_elements(rec, arg):
@@ -149,7 +157,7 @@ def _shard_mods(rec, arg):
 
 def _one_mod(rec, mod, key, seed, n):
     ar = progs.MOD_ARITY[mod]
-    others = ["+", "d", "₀"]
+    others = ["+", "d", "₀"] if sum(map(ord, key)) % 2 else ["₀", "V", "d"]
     operand_sets = [[key] * ar]
     if ar >= 2:
         operand_sets += [[key] + others[: ar - 1], others[: ar - 1] + [key]]
@@ -161,8 +169,10 @@ def _one_mod(rec, mod, key, seed, n):
         def t(args, text=None):
             pass
 
-        def run_case(args, text=text, main=main):
-            _do(rec, text, main, list(args), ["modifier", f"mod {mod}"])
+        extra = (max(arity_of(o) for o in ops) - arity_of(ops[1])) if mod in ("₌", "₍") else 0
+
+        def run_case(args, text=text, main=main, extra=extra):
+            _do(rec, text, main, list(args), ["modifier", f"mod {mod}"], extra)
 
         if mod in ("ƒ", "ɖ"):
             strat = st.tuples(elemargs.LST)
@@ -217,7 +227,10 @@ def replay(case):
             return None
     else:
         return None
-    r = check(text, specs)
+    pe = case.get("protected_extra", 0)
+    if not (isinstance(pe, int) and 0 <= pe <= len(specs)):
+        return None
+    r = check(text, specs, pe)
     if r and r[0] == "discard":
         return None
     return r
